@@ -412,8 +412,24 @@ def monitor(b, ep_num, rows_d, rows_i, rows_o, consistent_flags):
 
     n = len(rows_o)
     armed = False                  # ghost of Lemmas/C07CycInv.lean: a SETUP token strobe was the last token strobe
+    t_starts = t_completes = d_starts = 0   # stream contract of Lemmas/C07Stream.lean ("silent unless started")
     for t in range(n):
         d, si, o = rows_d[t], rows_i[t], rows_o[t]
+        # the stream contract assumed by cycle_refines_event_streams, on the real transmitter / descriptor handler:
+        # the transmitter offers a byte only while an emission it was started for is still running (every emission has
+        # its own `start` pulse and ends with the accepted `last` byte); the descriptor handler is silent before the
+        # cycle of its first `start`
+        if si[14] and not t_starts > t_completes:
+            fail(t, "c07cyc-env-transmitter-unstarted", "transmitter.stream.valid although every started emission is over "
+                 "(%d start pulses, %d completed emissions)" % (t_starts, t_completes))
+        if (si[9] or si[13]) and d_starts == 0 and not o[O["h.dStart"]]:   # (the distributed handler stalls in the start cycle)
+            fail(t, "c07cyc-env-descriptor-unstarted", "descriptor handler drives tx.valid / stall before its first start")
+        if si[14] and si[16] and o[O["h.tReady"]]:
+            t_completes += 1
+        if o[O["h.tStart"]] and o[O["h.tMaxLen"]] > 0:
+            t_starts += 1
+        if o[O["h.dStart"]]:
+            d_starts += 1
         # the environment contract assumed by cyc_stage_follows_setup / cyc_requests_follow_setup, on the real setup decoder
         if si[0] and not armed:
             fail(t, "c07cyc-env-received-unarmed", "setup decoder reported a packet although no SETUP token strobe precedes it")
